@@ -21,6 +21,8 @@ partial def loop (h out : IO.FS.Stream) (w : W) : IO Unit := do
     let (stmts, _) := parseStmts cnt.toNat! rest
     let i := idx.toNat!
     loop h out (updLastDev w fun d => let old := d.scripts; { d with scripts := fun k => if k == i then some stmts else old k })
+  | "AL" :: nm :: hosts =>
+    loop h out { w with cfg := { w.cfg with aliases := w.cfg.aliases ++ [(toChars (parseHex nm), hosts.map fun x => toChars (parseHex x))] } }
   | ["V", hex] => loop h out { w with cfg := { w.cfg with version := parseHex hex } }
   | ["X", pat, subj, ans] => loop h out { w with pendingX := w.pendingX ++ [{ pat := pat.toNat!, subject := parseHex subj, answer := parseOffs ans }] }
   | ["I", now, con, soe] =>
